@@ -20,50 +20,58 @@ theorem type_ne (t : Nat) (ht : t ∈ FROM_ALL_TYPES) :
 theorem has_setBit_ne (m : Mask) (b t : Nat) (v : Bool) (h : t ≠ b) : has (setBit m b v) t = has m t := by
   rw [has_setBit, if_neg h]
 
-theorem maskBefore_type (parsed : Abstract) (st : OptState) (t : Nat) (ht : t ∈ FROM_ALL_TYPES) :
-    has (maskBeforePattern parsed st) t =
+/-- bits of the anchor stage -/
+theorem anchorStage_has (parsed : Abstract) (m : Mask) (b : Nat) :
+    has (anchorStage parsed m) b =
+      (if b = IS_REGEX then checkIsRegex parsed.pattern
+       else if b = IS_RIGHT_ANCHOR ∧ parsed.ra = true then true
+       else if b = IS_HOSTNAME_ANCHOR ∧ parsed.la = some .double then true
+       else if b = IS_LEFT_ANCHOR ∧ parsed.la = some .single then true
+       else has m b) := by
+  have n1 : IS_RIGHT_ANCHOR ≠ IS_REGEX := by decide
+  have n2 : IS_HOSTNAME_ANCHOR ≠ IS_REGEX := by decide
+  have n3 : IS_LEFT_ANCHOR ≠ IS_REGEX := by decide
+  have n4 : IS_HOSTNAME_ANCHOR ≠ IS_RIGHT_ANCHOR := by decide
+  have n5 : IS_LEFT_ANCHOR ≠ IS_RIGHT_ANCHOR := by decide
+  have n6 : IS_LEFT_ANCHOR ≠ IS_HOSTNAME_ANCHOR := by decide
+  unfold anchorStage
+  simp only [has_setBit]
+  by_cases h18 : b = IS_REGEX
+  · simp [h18]
+  · rw [if_neg h18, if_neg h18]
+    cases hra : parsed.ra <;> cases hla : parsed.la with
+    | none => simp [has_setBit]
+    | some x =>
+      cases x <;> simp [has_setBit] <;>
+        (by_cases h20 : b = IS_RIGHT_ANCHOR <;> by_cases h21 : b = IS_HOSTNAME_ANCHOR <;> by_cases h19 : b = IS_LEFT_ANCHOR <;>
+          simp_all)
+
+theorem anchorStage_frame (parsed : Abstract) (m : Mask) (b : Nat) (h18 : b ≠ IS_REGEX) (h19 : b ≠ IS_LEFT_ANCHOR)
+    (h20 : b ≠ IS_RIGHT_ANCHOR) (h21 : b ≠ IS_HOSTNAME_ANCHOR) : has (anchorStage parsed m) b = has m b := by
+  rw [anchorStage_has, if_neg h18, if_neg (fun h => h20 h.1), if_neg (fun h => h21 h.1), if_neg (fun h => h19 h.1)]
+
+/-- bits of the type stage -/
+theorem typeStage_has (st : OptState) (b : Nat) :
+    has (typeStage st) b =
       (let rp := has st.mask IS_REMOVEPARAM || has st.pos IS_REMOVEPARAM
-       has st.mask t || has st.pos t
-        || (!rp && hasAny st.neg FROM_NETWORK_TYPES && FROM_NETWORK_TYPES.contains t)
+       has st.mask b || has st.pos b
+        || (!rp && hasAny st.neg FROM_NETWORK_TYPES && FROM_NETWORK_TYPES.contains b)
         || (!hasAny st.pos FROM_ALL_TYPES &&
-              (if rp then [FROM_DOCUMENT, FROM_SUBDOCUMENT, FROM_XMLHTTPREQUEST].contains t
-               else FROM_NETWORK_TYPES.contains t))) := by
-  obtain ⟨_, h18, h19, h20, h21, _⟩ := type_ne t ht
+              (if rp then [FROM_DOCUMENT, FROM_SUBDOCUMENT, FROM_XMLHTTPREQUEST].contains b
+               else FROM_NETWORK_TYPES.contains b))) := by
   have rpN : IS_REMOVEPARAM ∉ FROM_NETWORK_TYPES := by decide
-  unfold maskBeforePattern
+  unfold typeStage
   simp only []
   generalize hasAny st.neg FROM_NETWORK_TYPES = nn
   generalize hasAny st.pos FROM_ALL_TYPES = pa
-  rw [has_setBit_ne _ _ _ _ h18]
-  have strip_ra : ∀ m : Mask, has (if parsed.ra then setBit m IS_RIGHT_ANCHOR true else m) t = has m t := by
-    intro m; split
-    · exact has_setBit_ne _ _ _ _ h20
-    · rfl
-  rw [strip_ra]
-  have fin : ∀ m0 : Mask, m0 = st.mask ||| st.pos →
-      has (if (!pa) = true then
-            if has (if (!has m0 IS_REMOVEPARAM && nn) = true then m0 ||| maskOf FROM_NETWORK_TYPES else m0)
-                IS_REMOVEPARAM = true then
-              (if (!has m0 IS_REMOVEPARAM && nn) = true then m0 ||| maskOf FROM_NETWORK_TYPES else m0) |||
-                maskOf [FROM_DOCUMENT, FROM_SUBDOCUMENT, FROM_XMLHTTPREQUEST]
-            else
-              (if (!has m0 IS_REMOVEPARAM && nn) = true then m0 ||| maskOf FROM_NETWORK_TYPES else m0) |||
-                maskOf FROM_NETWORK_TYPES
-          else if (!has m0 IS_REMOVEPARAM && nn) = true then m0 ||| maskOf FROM_NETWORK_TYPES else m0) t =
-      (has st.mask t || has st.pos t
-        || (!(has st.mask IS_REMOVEPARAM || has st.pos IS_REMOVEPARAM) && nn && FROM_NETWORK_TYPES.contains t)
-        || (!pa &&
-              (if (has st.mask IS_REMOVEPARAM || has st.pos IS_REMOVEPARAM) = true then
-                [FROM_DOCUMENT, FROM_SUBDOCUMENT, FROM_XMLHTTPREQUEST].contains t
-               else FROM_NETWORK_TYPES.contains t))) := by
-    intro m0 hm0
-    subst hm0
-    cases hrp : (has st.mask IS_REMOVEPARAM || has st.pos IS_REMOVEPARAM) <;> cases nn <;> cases pa <;>
-      simp [has_or, has_maskOf, hrp, rpN, Bool.or_assoc]
-  split
-  · rw [has_setBit_ne _ _ _ _ h21]; exact fin _ rfl
-  · rw [has_setBit_ne _ _ _ _ h19]; exact fin _ rfl
-  · exact fin _ rfl
+  cases hrp : (has st.mask IS_REMOVEPARAM || has st.pos IS_REMOVEPARAM) <;> cases nn <;> cases pa <;>
+    simp [has_or, has_maskOf, hrp, rpN, Bool.or_assoc]
+
+theorem maskBefore_type (parsed : Abstract) (st : OptState) (t : Nat) (ht : t ∈ FROM_ALL_TYPES) :
+    has (maskBeforePattern parsed st) t = has (typeStage st) t := by
+  obtain ⟨_, h18, h19, h20, h21, _⟩ := type_ne t ht
+  unfold maskBeforePattern
+  exact anchorStage_frame parsed _ t h18 h19 h20 h21
 
 /-! ### frames of the later stages, for any bit they do not write -/
 
@@ -392,5 +400,305 @@ theorem wsFires_double (m0 : Mask) (p : Str) (h19 : has m0 IS_LEFT_ANCHOR = fals
     · rename_i i hi
       exact wsFires_of_head _ _ _ '/' (slashIdx_head p i hi) (by decide)
     · exact wsFires_at_end _ _
+
+
+
+/-! ### the right anchor of `||host^`, for the implicit-all condition -/
+
+/-- the pattern is a host followed by exactly one `^` -/
+def caretOnly (p : Str) : Bool :=
+  checkIsRegex p && (match firstSeparator p with
+    | some i => p.length - i == 1 && (p.drop i).head? == some '^'
+    | none => false)
+
+theorem splitHost_right (la : Option LAnchor) (m : Mask) (p : Str) :
+    has (splitHostPart la m p).1 IS_RIGHT_ANCHOR = (has m IS_RIGHT_ANCHOR || (la == some .double && caretOnly p)) := by
+  have n1 : IS_RIGHT_ANCHOR ≠ IS_REGEX := by decide
+  have n2 : IS_RIGHT_ANCHOR ≠ IS_LEFT_ANCHOR := by decide
+  have n3 : IS_RIGHT_ANCHOR ≠ IS_HOSTNAME_REGEX := by decide
+  unfold splitHostPart caretOnly
+  simp only []
+  split
+  · -- `||`
+    simp only [beq_self_eq_true, Bool.true_and]
+    split
+    · rename_i hr
+      rw [hr, Bool.true_and]
+      split
+      · rename_i i hi
+        simp only [hi]
+        split
+        · rename_i hc; rw [hc]; simp [has_setBit]
+        · rename_i hc
+          have : (p.length - i == 1 && (p.drop i).head? == some '^') = false := by simpa using hc
+          rw [this, Bool.or_false, has_setBit_ne _ _ _ _ n1, has_setBit_ne _ _ _ _ n2]
+          split
+          · exact has_setBit_ne _ _ _ _ n3
+          · rfl
+      · rename_i hn; simp [hn]
+    · rename_i hr
+      have : checkIsRegex p = false := by simpa using hr
+      rw [this, Bool.false_and, Bool.or_false]
+      split
+      · exact has_setBit_ne _ _ _ _ n2
+      · rfl
+  · rename_i hla
+    have : (la == some LAnchor.double) = false := by
+      cases la with
+      | none => rfl
+      | some x => cases x <;> simp_all
+    rw [this, Bool.false_and, Bool.or_false]
+
+theorem drop_eq_caret (p : Str) (i : Nat) :
+    (p.drop i == ['^']) = (p.length - i == 1 && (p.drop i).head? == some '^') := by
+  have hl : (p.drop i).length = p.length - i := List.length_drop
+  rw [← hl]
+  cases p.drop i with
+  | nil => rfl
+  | cons c r =>
+    cases r with
+    | nil => by_cases hc : c = '^' <;> simp [hc]
+    | cons d r' => simp
+
+theorem hostOnlyCaret_eq (a : Abstract) :
+    hostOnlyCaret a = (a.la == some .double && !a.ra && caretOnly a.pattern) := by
+  unfold hostOnlyCaret caretOnly
+  congr 1
+  cases firstSeparator a.pattern with
+  | none => simp
+  | some i => simp only [drop_eq_caret]; rw [Bool.and_comm]
+
+
+theorem surgery_frame (mask : Mask) (p : Str) (fs : Nat) (b : Nat) (h19 : b ≠ IS_LEFT_ANCHOR) (h8 : b ≠ FROM_WEBSOCKET)
+    (h11 : b ≠ FROM_HTTP) (h12 : b ≠ FROM_HTTPS) (h18 : b ≠ IS_REGEX) :
+    has (filterSurgery mask p fs).1 b = has mask b := by
+  unfold filterSurgery
+  have h1 := trimStars_frame mask p fs b h19
+  split
+  rename_i mA sA eA hT
+  rw [hT] at h1
+  simp only at h1 ⊢
+  have hB := schemeOnly_frame mA (p.drop sA) sA eA b h8 h11 h12 h19
+  split
+  · simp only [has_setBit_ne _ _ _ _ h18]; rw [hB, h1]
+  · simp only []; rw [hB, h1]
+
+/-! ### type options only name request types -/
+
+theorem positives_sub (opts : List NOpt) (hok : ∀ o ∈ opts, optOK o) (b : Nat)
+    (h : (positives opts).contains b = true) : b ∈ FROM_ALL_TYPES := by
+  rw [positives_contains] at h
+  obtain ⟨o, ho, hb⟩ := List.any_eq_true.1 h
+  have hk := hok o ho
+  cases o with
+  | ctype bit e =>
+    cases e with
+    | true => simp only [posB, beq_iff_eq] at hb; subst hb; exact hk
+    | false => simp [posB] at hb
+  | document => simp only [posB, beq_iff_eq] at hb; subst hb; decide
+  | _ => simp [posB] at hb
+
+theorem negatives_sub (opts : List NOpt) (hok : ∀ o ∈ opts, optOK o) (b : Nat)
+    (h : (negatives opts).contains b = true) : b ∈ FROM_ALL_TYPES := by
+  rw [negatives_contains] at h
+  obtain ⟨o, ho, hb⟩ := List.any_eq_true.1 h
+  have hk := hok o ho
+  cases o with
+  | ctype bit e =>
+    cases e with
+    | false => simp only [negB, beq_iff_eq] at hb; subst hb; exact hk
+    | true => simp [negB] at hb
+  | _ => simp [negB] at hb
+
+/-- the structural bits the option fold never produces -/
+theorem fold_struct (opts : List NOpt) (hok : ∀ o ∈ opts, optOK o) (e : Bool) (b : Nat)
+    (hb : b = IS_LEFT_ANCHOR ∨ b = IS_RIGHT_ANCHOR ∨ b = IS_HOSTNAME_ANCHOR) :
+    has (opts.foldl applyOption (st0 e)).mask b = false ∧ has (opts.foldl applyOption (st0 e)).pos b = false := by
+  have hnt : b ∉ FROM_ALL_TYPES := by rcases hb with rfl | rfl | rfl <;> decide
+  constructor
+  · rw [option_mask_set_bits _ _ _ (by rcases hb with rfl | rfl | rfl <;> decide)
+        (by rcases hb with rfl | rfl | rfl <;> decide)]
+    have h0 : has (st0 e).mask b = false := by
+      show has (mask0 e) b = false
+      rw [has_mask0]; rcases hb with rfl | rfl | rfl <;> cases e <;> decide
+    rw [h0, Bool.false_or, List.any_eq_false]
+    intro o _
+    rcases hb with rfl | rfl | rfl <;> cases o <;>
+      first
+        | decide
+        | (simp [setsB, setsBit, modifierBits]; done)
+        | (simp [setsB, setsBit, modifierBits] <;> decide)
+  · rw [fold_pos]
+    cases h : (positives opts).contains b
+    · rfl
+    · exact absurd (positives_sub opts hok b h) hnt
+
+theorem typeStage_struct (st : OptState) (b : Nat)
+    (hb : b = IS_LEFT_ANCHOR ∨ b = IS_RIGHT_ANCHOR ∨ b = IS_HOSTNAME_ANCHOR)
+    (hm : has st.mask b = false) (hp : has st.pos b = false) : has (typeStage st) b = false := by
+  have hN : FROM_NETWORK_TYPES.contains b = false := by rcases hb with rfl | rfl | rfl <;> decide
+  have hD : [FROM_DOCUMENT, FROM_SUBDOCUMENT, FROM_XMLHTTPREQUEST].contains b = false := by
+    rcases hb with rfl | rfl | rfl <;> decide
+  rw [typeStage_has]
+  simp only [hm, hp, hN, hD, Bool.and_false, Bool.or_false, ite_self]
+
+
+/-! ### assembly -/
+
+/-- the request types of a parsed rule, from its abstract form (`ws` is the only place where the
+    degenerate spelling `|ws://*` differs from `Spec.typeAllowed`) -/
+def typeBits (a : Abstract) (opts : List NOpt) (t : Nat) : Bool :=
+  let P := positives opts
+  let N := negatives opts
+  let rp := Spec.isRemoveparam opts
+  ((isCspRule opts && t == FROM_DOCUMENT) || P.contains t
+    || (!rp && N.any (fun b => FROM_NETWORK_TYPES.contains b) && FROM_NETWORK_TYPES.contains t)
+    || (!P.any (fun b => FROM_ALL_TYPES.contains b) &&
+          (if rp then [FROM_DOCUMENT, FROM_SUBDOCUMENT, FROM_XMLHTTPREQUEST].contains t else FROM_NETWORK_TYPES.contains t))
+    || (t == FROM_WEBSOCKET && (a.la == some .single && isWsText a.pattern))
+    || (!P.any (fun b => FROM_ALL_TYPES.contains b) && !N.any (fun b => FROM_ALL_TYPES.contains b)
+          && (a.la == some .double && !a.ra && caretOnly a.pattern) && !rp))
+  && !N.contains t
+
+/-- **The request-type bits of a parsed rule**, for every rule line the parser accepts. -/
+theorem parse_type_bits (line : Str) (r : Rule) (h : parseNetwork line = .ok r) :
+    ∃ parsed, parseAbstract line = .ok parsed ∧
+      ∀ t ∈ FROM_ALL_TYPES, has r.mask t = typeBits parsed (parsed.options.getD []) t := by
+  obtain ⟨parsed, st, m0, m1, host0, fStart, m2, filter, host, hpa, hst, hm0, hs, hf, _, hfin⟩ :=
+    parse_stages line r h
+  refine ⟨parsed, hpa, ?_⟩
+  have hok0 := parseAbstract_options line parsed hpa
+  have hok : ∀ o ∈ parsed.options.getD [], optOK o := by
+    intro o ho
+    cases hopt : parsed.options with
+    | none => rw [hopt] at ho; cases ho
+    | some os => rw [hopt] at ho; exact hok0 os hopt o ho
+  -- the option state
+  have hstEq : st = (parsed.options.getD []).foldl applyOption (st0 parsed.exception) := by
+    unfold optionState at hst
+    simp only at hst
+    split at hst
+    · rename_i opts ho
+      split at hst
+      · cases hst
+      · injection hst with hst; subst hst; rw [ho]; rfl
+    · rename_i ho
+      injection hst with hst; subst hst; rw [ho]; rfl
+  generalize hopts : parsed.options.getD [] = opts at hok hstEq ⊢
+  -- structural bits of the masks
+  have hstruct : ∀ b, (b = IS_LEFT_ANCHOR ∨ b = IS_RIGHT_ANCHOR ∨ b = IS_HOSTNAME_ANCHOR) → has (typeStage st) b = false := by
+    intro b hb
+    have := fold_struct opts hok parsed.exception b hb
+    rw [← hstEq] at this
+    exact typeStage_struct st b hb this.1 this.2
+  have hm0b : ∀ b, b ≠ IS_COMPLETE_REGEX → has m0 b = has (maskBeforePattern parsed st) b :=
+    fun b hb => markComplete_frame _ _ _ hm0 b hb
+  have h19 : has m0 IS_LEFT_ANCHOR = (parsed.la == some .single) := by
+    rw [hm0b _ (by decide)]
+    unfold maskBeforePattern
+    rw [anchorStage_has, if_neg (by decide), if_neg (fun h => absurd h.1 (by decide)),
+      if_neg (fun h => absurd h.1 (by decide)), hstruct _ (Or.inl rfl)]
+    cases parsed.la with
+    | none => rfl
+    | some x => cases x <;> simp
+  have h20 : has m0 IS_RIGHT_ANCHOR = parsed.ra := by
+    rw [hm0b _ (by decide)]
+    unfold maskBeforePattern
+    rw [anchorStage_has, if_neg (by decide), hstruct _ (Or.inr (Or.inl rfl))]
+    have n1 : IS_RIGHT_ANCHOR ≠ IS_HOSTNAME_ANCHOR := by decide
+    have n2 : IS_RIGHT_ANCHOR ≠ IS_LEFT_ANCHOR := by decide
+    cases parsed.ra <;> simp [n1, n2]
+  have h21 : has m0 IS_HOSTNAME_ANCHOR = (parsed.la == some .double) := by
+    rw [hm0b _ (by decide)]
+    unfold maskBeforePattern
+    rw [anchorStage_has, if_neg (by decide), if_neg (fun h => absurd h.1 (by decide)),
+      hstruct _ (Or.inr (Or.inr rfl))]
+    have n1 : IS_HOSTNAME_ANCHOR ≠ IS_LEFT_ANCHOR := by decide
+    have e1 : (LAnchor.single == LAnchor.double) = false := by decide
+    cases parsed.la with
+    | none => rfl
+    | some x => cases x <;> simp [n1, e1]
+  have hm1 : m1 = (splitHostPart parsed.la m0 parsed.pattern).1 := by rw [hs]
+  have hfs : fStart = (splitHostPart parsed.la m0 parsed.pattern).2.2 := by rw [hs]
+  have hm2 : m2 = (filterSurgery m1 parsed.pattern fStart).1 := by rw [hf]
+  -- the ws arm
+  have hws : wsFires m1 parsed.pattern fStart = (parsed.la == some .single && isWsText parsed.pattern) := by
+    rw [hm1, hfs]
+    cases hla : parsed.la with
+    | none =>
+      have : splitHostPart none m0 parsed.pattern = (m0, none, 0) := rfl
+      rw [this, wsFires_zero, h19, hla]
+    | some x =>
+      cases x with
+      | single =>
+        have : splitHostPart (some .single) m0 parsed.pattern = (m0, none, 0) := rfl
+        rw [this, wsFires_zero, h19, hla]
+      | double =>
+        rw [wsFires_double m0 parsed.pattern (by rw [h19, hla]; rfl)]; rfl
+  -- the implicit-all condition
+  have hall : allCond parsed st m2 =
+      (!(positives opts).any (fun b => FROM_ALL_TYPES.contains b) && !(negatives opts).any (fun b => FROM_ALL_TYPES.contains b)
+        && (parsed.la == some .double && !parsed.ra && caretOnly parsed.pattern) && !Spec.isRemoveparam opts) := by
+    unfold allCond
+    have e21 : has m2 IS_HOSTNAME_ANCHOR = (parsed.la == some .double) := by
+      rw [hm2, surgery_frame _ _ _ _ (by decide) (by decide) (by decide) (by decide) (by decide), hm1,
+        splitHost_frame _ _ _ _ (by decide) (by decide) (by decide) (by decide), h21]
+    have e20 : has m2 IS_RIGHT_ANCHOR = (parsed.ra || (parsed.la == some .double && caretOnly parsed.pattern)) := by
+      rw [hm2, surgery_frame _ _ _ _ (by decide) (by decide) (by decide) (by decide) (by decide), hm1,
+        splitHost_right, h20]
+    have e15 : has m2 IS_REMOVEPARAM = Spec.isRemoveparam opts := by
+      have hfl : IS_REMOVEPARAM ∈ flagBits := by decide
+      have hpn := fold_pos_neg_flag opts hok (st0 parsed.exception) rfl rfl _ hfl
+      rw [hm2, surgery_flag _ _ _ _ hfl, hm1, splitHost_flag _ _ _ _ hfl, markComplete_flag _ _ _ hm0 _ hfl,
+        maskBefore_flag _ _ _ hfl, hstEq, hpn.1, Bool.or_false, fold_mask_rp]
+    rw [e21, e20, e15, hstEq, hasAny_pos, hasAny_neg]
+    cases parsed.ra <;> cases (parsed.la == some LAnchor.double) <;> simp
+  intro t ht
+  obtain ⟨_, hn18, hn19, hn20, _, hn24, hn28, _⟩ := type_ne t ht
+  rw [finish_type _ _ _ _ _ _ _ hfin t ht, hall, hm2, surgery_type _ _ _ _ ht, hws, hm1,
+    splitHost_frame _ _ _ _ hn28 hn18 hn20 hn19, hm0b t hn24, maskBefore_type _ _ _ ht, typeStage_has]
+  have hrp : (has st.mask IS_REMOVEPARAM || has st.pos IS_REMOVEPARAM) = Spec.isRemoveparam opts := by
+    have hfl : IS_REMOVEPARAM ∈ flagBits := by decide
+    have hpn := fold_pos_neg_flag opts hok (st0 parsed.exception) rfl rfl _ hfl
+    rw [hstEq, hpn.1, Bool.or_false, fold_mask_rp]
+  simp only [hrp]
+  rw [hstEq, fold_mask_type _ _ _ ht, fold_pos, fold_neg, hasAny_pos, hasAny_neg]
+  unfold typeBits
+  simp only [Bool.and_assoc, Bool.or_assoc]
+
+
+/-- outside the degenerate spelling `|ws://*`, `typeBits` is the reference's `typeAllowed` -/
+theorem typeBits_eq_ref (a : Abstract) (opts : List NOpt) (t : Nat) (ht : t ∈ FROM_ALL_TYPES)
+    (hdeg : ¬(a.la = some .single ∧ a.pattern = ['w', 's', ':', '/', '/', '*'])) :
+    typeBits a opts t = typeAllowed a opts t := by
+  have hall : FROM_ALL_TYPES.contains t = true := by simpa using ht
+  have hws : (a.la == some LAnchor.single && isWsText a.pattern) = wsPattern a := by
+    unfold wsPattern isWsText
+    rw [ws_lit]
+    by_cases h1 : a.la = some .single
+    · by_cases h2 : a.pattern = ['w', 's', ':', '/', '/', '*']
+      · exact absurd ⟨h1, h2⟩ hdeg
+      · have : (a.pattern == ['w', 's', ':', '/', '/', '*']) = false := by simpa using h2
+        rw [this, Bool.or_false]
+    · have : (a.la == some LAnchor.single) = false := by simpa using h1
+      rw [this]; rfl
+  unfold typeBits typeAllowed
+  simp only []
+  rw [hws, hostOnlyCaret_eq, hall, Bool.and_true]
+  congr 1
+  generalize (positives opts).contains t = x1
+  generalize (isCspRule opts && t == FROM_DOCUMENT) = x2
+  generalize (!Spec.isRemoveparam opts && (negatives opts).any FROM_NETWORK_TYPES.contains && FROM_NETWORK_TYPES.contains t) = x3
+  generalize (!(positives opts).any FROM_ALL_TYPES.contains &&
+    (if Spec.isRemoveparam opts = true then [FROM_DOCUMENT, FROM_SUBDOCUMENT, FROM_XMLHTTPREQUEST].contains t
+      else FROM_NETWORK_TYPES.contains t)) = x4
+  generalize (wsPattern a) = x5
+  generalize (t == FROM_WEBSOCKET) = x6
+  generalize (!(positives opts).any FROM_ALL_TYPES.contains) = x7
+  generalize (!(negatives opts).any FROM_ALL_TYPES.contains) = x8
+  generalize (a.la == some LAnchor.double && !a.ra && caretOnly a.pattern) = x9
+  generalize (!Spec.isRemoveparam opts) = x10
+  cases x1 <;> cases x2 <;> cases x3 <;> cases x4 <;> cases x5 <;> cases x6 <;> cases x7 <;> cases x8 <;> cases x9 <;>
+    cases x10 <;> rfl
 
 end Adb.Props.ParseTypes
